@@ -213,3 +213,39 @@ def run(ctx, rep):
         rep.check(ok, 'R-C13-7', '%s: io_write_preset and io_write_next agree' % base(f.name), (pre or nxt)[0].loc(), det, function=base(f.name), construct='preset/next agreement')
     if n == 0:
         raise AnalysisBroken('no caller of io_write_preset / io_write_next found')
+
+    # a condition several threads wait on must be woken with broadcast: after one io_*_next every worker has a new task
+    rep.rule('R-C13-3b', 'a condition variable waited on by the worker threads (one thread per disk / parity) is only woken with a broadcast', 2)
+    entries = set()
+    for f in P.defined():
+        for c in f.calls('thread_create'):
+            o = f.strip(c.ops[1])
+            if o[0] == 'f' and f.loop_of(c.block) is not None:
+                entries.add(o[1])
+    if not entries:
+        raise AnalysisBroken('no worker thread entry (thread_create in a loop) found')
+    cg = P.callgraph()
+    worker_code = P.reachable(entries, cg)
+    multi = {}
+    for fn in worker_code:
+        f = P.functions.get(fn)
+        if f is None or f.decl:
+            continue
+        for c in f.calls('thread_cond_wait'):
+            m_ = re.search(r'->(\w+)$', f.expr(c.ops[0]))
+            if m_:
+                multi.setdefault(m_.group(1), []).append(base(f.name))
+    if len(multi) < 2:
+        raise AnalysisBroken('worker-side condition waits not found (%s)' % multi)
+    for cond, waiters in sorted(multi.items()):
+        wakes = []
+        for f in P.defined():
+            if not (f.file or '').endswith('io.c'):
+                continue
+            for c in f.calls(SIGNALS):
+                m_ = re.search(r'->(\w+)$', f.expr(c.ops[0]))
+                if m_ and m_.group(1) == cond:
+                    wakes.append((base(f.name), c))
+        bad_ = [(fn_, c.callee, c.line) for fn_, c in wakes if 'broadcast' not in c.callee]
+        rep.check(bool(wakes) and not bad_, 'R-C13-3b', 'io->%s (waited on by %s in every worker) is woken only by broadcast' % (cond, sorted(set(waiters))), wakes[0][1].loc() if wakes else 'cmdline/io.c',
+                  '%d wake sites, all broadcast' % len(wakes) if not bad_ else 'woken with a single-thread signal in %s: workers with a pending task can stay asleep (hang with short rings)' % bad_, function=bad_[0][0] if bad_ else 'io', construct='broadcast %s' % cond)
